@@ -80,4 +80,29 @@ CHECKS = {
         "over every octet pair and every valid date of a century; priIsPrimeW/priIsPrime/priNextPrimeW exhaustively on [0,2^17) (thorough 2^20) and "
         "around 2^32, Carmichael numbers, strong pseudoprimes, products of large primes; ppIsIrred on all 131072 polynomials of degree <= 16.",
    note="Conditions the headers do not settle are executed but not judged; 'accepts every prime' is sampled above 2^33."),
+ "C04": dict(level="exploration",
+   technique="protocol monitor: both parties hosted in one process with the harness as the network (deliver / alter / substitute / swap), verdict table of the statement, under ASan",
+   text="BMQV, BSTS, BPACE and token BAUTH are run step by step and through RunA/RunB (B in a second thread over an in-memory pipe) for 3 curves x "
+        "confirmation flags x hello strings x generator tapes; every octet of every message M1..M4 is altered (curve256 in quick, all curves in "
+        "thorough), points are replaced by off-curve / out-of-field / zero / twist encodings, passwords, keys and certificates are mismatched; "
+        "honest runs must agree on the key, tampered runs must fail (confirmation) or disagree (no confirmation).",
+   note="Negating the y-coordinate of a transmitted point is outside the quantifier (the standard hashes x only) and only tallied."),
+ "C13": dict(level="exploration",
+   technique="reference-model oracle (GF(2)[x] sharing/CRT in Python) + recover-after-share metamorphic oracle over exhaustive subsets under ASan",
+   text="3 secret lengths x counts 1..16 x thresholds x all subsets of size >= threshold for count <= 5 (thorough 6) and random subsets above x "
+        "several orderings, standard and generated public keys, structured generator tapes; every share must equal the model's value and every "
+        "recovery the secret; generated user keys must validate and be deterministic in the identifier.",
+   note="belsShare3's deterministic k is checked by consistency, not by value."),
+ "C16": dict(level="exploration",
+   technique="reference models (GOST R 34.10, DSTU 4145, pfok, thin bign96) + sign/verify/tamper metamorphic oracles under ASan",
+   text="All standard parameter sets of bign96, g12s (8), dstu (10) and pfok x private keys {1, 2, order-1, random} x hashes {0, all-ones, "
+        "order, order+1, random} x generator tapes (incl. forced rejection and forced s = 0) x bit alterations of signature and public key "
+        "(model decides whether the reduced inputs changed); DSTU compress/recover incl. x = 0; pfok DH/MTI both directions.",
+   note="Rejected alterations are model-evaluated on a sample; brngCTR-driven nonces are judged by the verification equation only."),
+ "C17": dict(level="exploration",
+   technique="roundtrip / tamper monitors + header-text chain-validity model for CV certificates, secure messaging dialogues and bpki containers under ASan",
+   text="CV certificates for key lengths 24/32/48/64 with boundary names, dates and access words, chains of depth 1..3 with every octet of every "
+        "certificate altered; secure-messaging dialogues of 1..12 command/response pairs with every Lc/Le form, counters in step / out of step / "
+        "wrong parity and every protected octet flipped; password-protected containers with wrong passwords, wrong type and every octet altered.",
+   note="Replay at the same counter is not claimed (MAC does not cover the counter by design)."),
 }
